@@ -76,7 +76,37 @@ class C14(Prop):
                 validated += 1
                 if len(samples) < 2 and strict and want != inp:
                     samples.append(dict(input=r.input_text()[:500], reemitted=got[:500]))
-        return dict(evaluations=len(results), validated=validated, failures=failures, samples=samples)
+        # items NESTED inside the annotated item (in the block of a discriminant, in an array length) are foreign content:
+        # their attributes are not the annotated item's, whatever they are called (hand-written; real macro only)
+        raw = R.run_raw([('A', a, it, dict(nontrivial=True)) for a, it, _ in NESTED_ITEMS])
+        want_flat = R.tokenize([w for _, _, w in NESTED_ITEMS])
+        for r, wf in zip(raw, want_flat):
+            items = [p for p in r.actual if p[0] == 'ITEM']
+            got = items[0][1] if len(items) == 1 else None
+            if wf[0] != 'FLAT' or got != wf[1]:
+                failures.append(dict(**{'class': 'nested-item-attributes-touched', 'mode': 'item'}, input=r.input_text(),
+                                     expected=wf[1] if wf[0] == 'FLAT' else wf, observed=got, strict=True))
+            else:
+                validated += 1
+        return dict(evaluations=len(results) + len(raw), validated=validated, failures=failures, samples=samples,
+                    nested_item_requests=len(raw))
+
+
+# (argument list, item, the item as it has to be re-emitted)
+NESTED_ITEMS = [
+    ('Default, Debug, Eq, PartialEq',
+     'enum Level { #[default] Low = { #[derive(Default)] enum Inner { #[default] X, Y } 1 }, High = 7 }',
+     'enum Level { Low = { #[derive(Default)] enum Inner { #[default] X, Y } 1 }, High = 7 }'),
+    ('Default, Debug',
+     'struct Buf { #[default([9; 3])] data: [u8; { #[derive_ex(Default)] struct Len { #[default(3)] n: usize } 3 }], #[debug(ignore)] hidden: u8 }',
+     'struct Buf { data: [u8; { #[derive_ex(Default)] struct Len { #[default(3)] n: usize } 3 }], hidden: u8 }'),
+    ('PartialEq, Hash',
+     'struct K { #[partial_eq(ignore)] a: [u8; { struct I { #[partial_eq(ignore)] #[hash(ignore)] x: u8 } 2 }], #[hash(ignore)] b: u8 }',
+     'struct K { a: [u8; { struct I { #[partial_eq(ignore)] #[hash(ignore)] x: u8 } 2 }], b: u8 }'),
+    ('Clone',
+     'enum E { A = { enum J { #[derive_ex(Clone)] P(#[derive_ex(Clone(bound()))] u8) } 0 }, #[derive_ex(Clone)] B }',
+     'enum E { A = { enum J { #[derive_ex(Clone)] P(#[derive_ex(Clone(bound()))] u8) } 0 }, B }'),
+]
 
 
 def classify(r, want, got):
